@@ -549,6 +549,78 @@ def add_auto(text, registries):
     return ''.join(out)
 
 
+
+# --------------------------------------------------------------------------
+# necessity copies (DESIGN.md 2.3): a mechanical copy of a function with ONE documented precondition removed
+# (and its ensures dropped) must FAIL verification at the documented panic.  If an edit deletes the guard,
+# the copy verifies and the refusal clause of the property is reported violated.
+NECESSITY = [
+    # (module, inherent impl type, fn name, requires-conjunct to drop (exact text), id)
+    ('mac', 'CoseMac', 'tbm', 'self.payload is Some', 'payload'),
+    ('mac', 'CoseMac0', 'tbm', 'self.payload is Some', 'payload'),
+    ('encrypt', 'CoseRecipient', 'decrypt', 'self.ciphertext is Some', 'ciphertext'),
+    ('encrypt', 'CoseRecipient', 'decrypt', 'is_recipient_ctx(context)', 'context'),
+    ('encrypt', 'CoseEncrypt', 'decrypt', 'self.ciphertext is Some', 'ciphertext'),
+    ('encrypt', 'CoseEncrypt0', 'decrypt', 'self.ciphertext is Some', 'ciphertext'),
+    ('encrypt', 'CoseRecipientBuilder', 'aad', 'is_recipient_ctx(context)', 'context'),
+    ('sign', 'CoseSign1', 'tbs_detached_data', 'self.payload is None', 'payload'),
+    ('sign', 'CoseSign', 'tbs_detached_data', 'self.payload is None', 'payload'),
+    ('sign', 'CoseSign', 'verify_signature', 'which < self.signatures@.len()', 'index'),
+    ('sign', 'CoseSign', 'verify_detached_signature', 'which < self.signatures@.len()', 'index'),
+    ('header', 'HeaderBuilder', 'value', '!(1 <= label <= 7)', 'reserved'),
+    ('key', 'CoseKeyBuilder', 'param', '!(0 <= label <= 5)', 'reserved'),
+    ('cwt', 'ClaimsSetBuilder', 'claim', '!(1 <= name.spec_to_i64() <= 7)', 'reserved'),
+    ('cwt', 'ClaimsSetBuilder', 'private_claim', 'id < -65536', 'private'),
+]
+
+
+def necessity_copies(m, text):
+    """append the must-fail copies for module m (text = generated module text incl. inserted regions)"""
+    out = text
+    made = []
+    for mod, ty, fn, drop, nid in NECESSITY:
+        if mod != m:
+            continue
+        # all inherent impl blocks of ty
+        found = None
+        for im in re.finditer(r'\bimpl %s \{' % re.escape(ty), out):
+            b = im.end() - 1
+            e = match_brace(out, b)
+            fm = re.search(r'(?:pub(?:\([a-z]+\))? )?fn %s\b' % re.escape(fn), out[b:e])
+            if fm:
+                found = (b + fm.start(), e)
+                break
+        if not found:
+            raise ExtractError('necessity target %s::%s::%s not found' % (mod, ty, fn))
+        start, impl_end = found
+        # body start: first '{' after start that is outside inserted regions
+        i = start
+        depth_ins = 0
+        body = None
+        while i < impl_end:
+            if out.startswith(GOPEN, i):
+                j = out.index(GCLOSE, i)
+                i = j + len(GCLOSE)
+                continue
+            if out[i] == '{':
+                body = i
+                break
+            i += 1
+        if body is None:
+            raise ExtractError('necessity target body not found: ' + fn)
+        end = match_brace(out, body)
+        sig = out[start:body]
+        if drop not in sig:
+            raise ExtractError('necessity conjunct %r not in the contract of %s::%s' % (drop, ty, fn))
+        sig2 = sig.replace(drop, 'true', 1)
+        # drop the ensures clause(s): everything from 'ensures' to the end of that inserted region
+        sig2 = re.sub(r'\bensures\b.*?(?=' + re.escape(GCLOSE) + ')', '', sig2, flags=re.S)
+        sig2 = re.sub(r'fn %s\b' % re.escape(fn), 'fn %s__nec_%s' % (fn, nid), sig2, count=1)
+        copy = '\n    #[allow(dead_code)] ' + sig2 + out[body:end + 1] + '\n'
+        out = out[:end + 1] + GOPEN + copy.replace(GOPEN, '').replace(GCLOSE, '') + GCLOSE + out[end + 1:]
+        made.append('%s::%s::%s__nec_%s' % (mod, ty, fn, nid))
+    return out, made
+
 HEADER = '''#![allow(unused_imports, dead_code, unused_macros, unreachable_patterns, unused_variables, unused_mut, non_camel_case_types, unused_parens, unused_braces, unused_attributes)]
 #![cfg_attr(verus_keep_ghost, verifier::allow(autoderive_clone_without_spec))]
 extern crate alloc;
@@ -589,6 +661,9 @@ def generate(repo=REPO, contracts_dir=None, with_contracts=True):
         else:
             g = c
         g = add_auto(g, registries)
+        if with_contracts:
+            g, made = necessity_copies(m, g)
+            info.setdefault('necessity', []).extend(made)
         if strip_generated(g) != strip_generated(c):
             raise ExtractError('self-check failed: stripping the insertions from module %s does not give back the rewritten source' % m)
         vis = {'util': 'pub(crate) mod', 'cwt': 'pub mod', 'iana': 'pub mod'}.get(m, 'mod')
